@@ -19,6 +19,7 @@ import ApiFu.C02.Lemmas
 import ApiFu.C02.Data
 import ApiFu.C02.Term
 import ApiFu.C02.Errors
+import ApiFu.C02.Required
 
 namespace ApiFu.C02
 
@@ -172,6 +173,35 @@ theorem no_duplicate_error (rq : Request) (hd : Field.distinctKeysL rq.fields = 
   have := count_le_one_of_nodup (errsF_nodup rq.fields [] hd) e
   omega
 
+/-- **required_errors_reported.** For every request, async subset and schedule, every *required*
+    error — the own error of every null left visible in the data because that nullable position's
+    resolver failed or its value failed with its own completion error (`Spec.required`) — is in the
+    response's error list. (When a non-null position fails, the error that propagates to the
+    nearest nullable position is one of possibly several beneath it; which one is reported may
+    depend on the schedule, as the GraphQL rules allow, and is not "required": see
+    `errors_are_field_errors`.) -/
+theorem required_errors_reported (rq : Request) : ∀ e ∈ Spec.required rq, e ∈ (run rq).errors := by
+  obtain ⟨r, h⟩ := execute_terminates rq
+  intro e he
+  rw [run_errors]
+  exact required_reported rq r h e he
+
+/-- **required_errors_eq.** The required errors are the same list for the request and for its
+    all-synchronous counterpart, and each of them occurs in both responses — exactly once when
+    response keys are distinct. -/
+theorem required_errors_eq (rq : Request) (sched' : List Nat) (hd : Field.distinctKeysL rq.fields = true) :
+    Spec.required (rq.allSync sched') = Spec.required rq ∧
+    ∀ e ∈ Spec.required rq, (run rq).errors.count e = 1 ∧ (run (rq.allSync sched')).errors.count e = 1 := by
+  refine ⟨required_allSync rq sched', fun e he => ⟨?_, ?_⟩⟩
+  · have h1 := List.count_pos_iff.mpr (required_errors_reported rq e he)
+    have h2 := count_le_one_of_nodup (no_duplicate_error rq hd) e
+    omega
+  · have hd' : Field.distinctKeysL (rq.allSync sched').fields = true := by
+      simp only [Request.allSync]; rw [(distinctKeys_allSync_aux.2.1 rq.fields).1]; exact hd
+    have h1 := List.count_pos_iff.mpr (required_errors_reported (rq.allSync sched') e (by rw [required_allSync]; exact he))
+    have h2 := count_le_one_of_nodup (no_duplicate_error (rq.allSync sched') hd') e
+    omega
+
 /-- **rounds_le_promises.** Whenever execution returns, the number of idle rounds is at most the
     number of promises created: every round the model lets happen fulfils at least one outstanding
     promise (`idleRound_spec`), for every schedule. -/
@@ -223,6 +253,17 @@ example : Field.distinctKeysL exampleRequest.fields = true := by
 example : Spec.data exampleRequest = "{\"obj\":null,\"b\":1}" := by
   simp [Spec.data, exampleRequest, Spec.fieldsOk, Spec.comp, Out.caught, Out.isOk, Out.nonNull, Spec.jsonF, Spec.jsonC,
     quote]
+
+/-- Non-vacuity of `required_errors_reported`: a nullable field failing through a promise beside
+    a value. -/
+def reqExample : Request :=
+  { mutation := false,
+    fields := [.mk "a" false .promise (some "boom") .null, .mk "b" true .sync none (.scalar "1")],
+    sched := [] }
+
+example : Spec.required reqExample = [⟨[.key "a"], "boom"⟩] := by
+  simp [Spec.required, reqExample, Spec.fieldsOk, Spec.comp, Out.caught, Out.isOk, Out.nonNull, Spec.reqF, Spec.reqHead,
+    Spec.reqC]
 
 example : Spec.request exampleRequest = .ok (.obj [] 2) := by
   simp [Spec.request, exampleRequest, Spec.fieldsOk, Spec.comp, Out.caught, Out.isOk, Out.nonNull]
